@@ -7,7 +7,7 @@ import os
 import z3
 
 from . import frames
-from .values import ExcVal, Obj, SymRaise, Undecided, V, fresh_name, real, to_term
+from .values import ONE, ExcVal, Obj, SymRaise, Undecided, V, fresh_name, real, to_term
 
 SITE = "/venv/lib/python3.12/site-packages"
 TRUSTED = []
@@ -366,3 +366,42 @@ def _exc_class(name):
     from .interp import ExcClass
 
     return ExcClass(name, ("Exception",))
+
+
+# ---- order-insensitive statistics of a group's rows (math_utils.weighted_median / boot_sigma) -----------------
+
+
+def _stat_rows(v):
+    from . import sums
+
+    axes = [a for a in v.axes if a is not ONE]
+    if len(axes) != 1:
+        raise Undecided("statistic of a non 1-D array")
+    return sums._rows_cond(axes[0], z3.BoolVal(True))
+
+
+def weighted_median_contract(interp, x, weights):
+    """math_utils.weighted_median(x, w): A-WM -- a function of the multiset {(x_i, w_i)} of the rows it is given (finite)"""
+    from . import sums
+
+    _use("A-WM: math_utils.weighted_median(x, w) is a finite function of the multiset of (x_i, w_i) of its rows")
+    root, dom = _stat_rows(x)
+    sym, d = sums.formal_stat(interp.ctx, "wmedian", root, dom, [real(x.t), real(to_term(weights) if not isinstance(weights, V) else weights.t)])
+    out = V(sym)
+    out.meta = ("stat", d)
+    return out
+
+
+def boot_sigma_contract(interp, data, conf=None, num_iterations=10000, winsorize=False, seed=4191):
+    """math_utils.boot_sigma(data, conf, ..., seed): A-SIGMA -- finite, positive, a function of the rows' data, conf, the
+    winsorize switch and the seed"""
+    from . import sums
+
+    _use("A-SIGMA: math_utils.boot_sigma(data, conf, winsorize, seed) is a finite positive function of the multiset of its rows' data and of (conf, winsorize, seed)")
+    root, dom = _stat_rows(data)
+    extra = [real(to_term(conf)), to_term(bool(winsorize)) if isinstance(winsorize, bool) else to_term(winsorize), to_term(seed), to_term(num_iterations)]
+    sym, d = sums.formal_stat(interp.ctx, "bootsigma", root, dom, [real(data.t)], extra)
+    interp.ctx.assume(sym > 0)
+    out = V(sym)
+    out.meta = ("stat", d)
+    return out
